@@ -40,6 +40,11 @@ inline std::string diff_ref(const RefSnap& r, const Snapshot& a) {
 
 inline void apply_ref_setter(ref::Url& u, int which, std::string_view v) {
   switch (which) {
+    case OP_CLEAR_PORT: ref::set_port(u, ""); break;
+    case OP_CLEAR_HASH: ref::set_hash(u, ""); break;
+    case OP_CLEAR_SEARCH: ref::set_search(u, ""); break;
+    case OP_COPY: break;
+    case OP_REPARSE: { ref::Url t; if (ref::parse(ref::href(u), nullptr, t)) u = t; break; }
     case S_HREF: (void)ref::set_href(u, v); break;
     case S_PROTOCOL: ref::set_protocol(u, v); break;
     case S_USERNAME: ref::set_username(u, v); break;
